@@ -347,6 +347,11 @@ func (b *tqcache) PutMany(ctx context.Context, bs []blocks.Block) error {
 
 	err := b.blockstore.PutMany(ctx, good.blocks)
 	if err != nil {
+		// Part of the batch may have been written before the failure, so
+		// nothing the cache knew about these keys can be trusted anymore.
+		for _, key := range good.keys {
+			b.cacheInvalidate(key)
+		}
 		return err
 	}
 	for i, key := range good.keys {
